@@ -219,7 +219,7 @@ theorem S4_nat_partial (E : Ext) (f : ℕ) (hf : 10 ≤ f) (n : ℕ) (hn : n ≤
       (by simp; have := Nat.cast_nonneg (α := ℝ) j; linarith) (cxNat_noPole _ (by omega))
 
 /-- What S2(0) = 0 asks of the fed ζ(2): it must equal Σ_{j=1}^{9} j^−2 plus the truncated series
-    of ψ' at 10 (true of the real ζ(2) only to the accuracy of that series, ≈1e-15). -/
+    of ψ' at 10 (true of the real ζ(2) only to the accuracy of that series: S2(0) = −2.4e-14 on the running code). -/
 theorem S2_zero_value (E : Ext) (f : ℕ) (hf : 10 ≤ f) :
     ∃ a0, S2 E f (cxNat 0) = .ok a0 ∧
       toC a0 = (E.zeta2 : ℂ) - (∑ j ∈ Finset.range 9, 1 / ((j + 1 : ℕ) : ℂ) ^ 2
@@ -245,23 +245,10 @@ theorem S2_zero_value (E : Ext) (f : ℕ) (hf : 10 ≤ f) :
   norm_num
   ring
 
-/-- with S_k(0) = 0 the harmonic sums at 0 ≤ n ≤ 9 are the finite rational sums -/
-theorem Sk_nat_sum_partial (E : Ext) (f : ℕ) (hf : 10 ≤ f) (n : ℕ) (hn : n ≤ 9)
-    (h2 : S2 E f (cxNat 0) = .ok czero) (h3 : S3 E f (cxNat 0) = .ok czero)
-    (h4 : S4 E f (cxNat 0) = .ok czero) :
-    (∃ a, S2 E f (cxNat n) = .ok a ∧ toC a = ∑ i ∈ Finset.range n, 1 / ((i + 1 : ℕ) : ℂ) ^ 2) ∧
-    (∃ a, S3 E f (cxNat n) = .ok a ∧ toC a = ∑ i ∈ Finset.range n, 1 / ((i + 1 : ℕ) : ℂ) ^ 3) ∧
-    (∃ a, S4 E f (cxNat n) = .ok a ∧ toC a = ∑ i ∈ Finset.range n, 1 / ((i + 1 : ℕ) : ℂ) ^ 4) := by
-  refine ⟨?_, ?_, ?_⟩
-  · obtain ⟨a, a0, ha, ha0, h⟩ := S2_nat_partial E f hf n hn
-    rw [h2] at ha0; cases ha0
-    exact ⟨a, ha, by rw [h]; simp⟩
-  · obtain ⟨a, a0, ha, ha0, h⟩ := S3_nat_partial E f hf n hn
-    rw [h3] at ha0; cases ha0
-    exact ⟨a, ha, by rw [h]; simp⟩
-  · obtain ⟨a, a0, ha, ha0, h⟩ := S4_nat_partial E f hf n hn
-    rw [h4] at ha0; cases ha0
-    exact ⟨a, ha, by rw [h]; simp⟩
+/- (A corollary "with S_k(0) = 0 the sums are the finite rational sums" was removed after the audit: its hypothesis is
+   false for the true ζ(k) — S_k(0) is ζ(k) minus a rational minus the truncated series — and also on the running code
+   (S2(0) = −2.4e-14, S3(0) = −1.6e-14, S4(0) = −7e-15).  The unconditional statements are `S2/S3/S4_nat_partial` above:
+   S_k(n) = S_k(0) + Σ_{i≤n} i^−k with the code's own S_k(0), which `S2_zero_value` identifies.) -/
 
 /-- for n ≥ 9 no shift happens: S2(n) is ζ(2) minus the truncated series at n+1 (so the finite-sum
     form rests there on the accuracy of the series, not on algebra) -/
